@@ -45,7 +45,7 @@ func (hostile) Meta() core.EngineMeta {
 		Rule:        "Inputs: (a) random bytes with sync bytes planted at multiples of the packet size, at random places or nowhere, empty, one byte, shorter than the 193-byte detection window; (b) reference streams whose descriptors carry the 23 typed tags with arbitrary bodies of arbitrary length inside intact sections, and reference streams mutated at seeded positions and at targeted fields (section_length, adaptation_field_length, PES_packet_length and header_data_length, pointer_field, descriptor and loop lengths set to 0 / 0xFF / maximum), re-framed to 188+k; (c) structured streams truncated at a stride of offsets. Configurations: packet size in {auto, 188, 192, 204, 189, 300}, reader in {seekable, bufio, plain} with seeded chunk plans, API in {NextPacket, NextData, alternating}, with and without skipper / observing parser. Invariants per run: no panic; every call returning an error other than ErrNoMorePackets consumed input (non-bufio readers); ErrNoMorePackets within len(input)+16 calls and again on each of the next 8 calls; explicit size: the results for in[:k] equal those for in[:k - k mod size]. A run that exceeds the 20 s supervisor is a violation of class hang. distinct = (origin class, size option, reader kind, API, callbacks, result-shape class: counts of data/errors bucketed); non-trivial = the input is non-empty and at least one call returned an error or data.",
 		Real:        []string{"astits.Demuxer and everything below it", "bufio.Reader"},
 		Stub:        []string{"SimReader", "refts reference multiplexer (structured inputs)", "mutation operators", "per-run supervisor (hang detection)"},
-		FaultKinds:  []string{"random-bytes", "mutated-stream", "targeted-length-field", "truncated-stream", "empty-or-tiny", "auto-detect", "size>188", "bufio", "plain", "skipper", "parser"},
+		FaultKinds:  []string{"random-bytes", "mutated-stream", "targeted-length-field", "truncated-stream", "empty-or-tiny", "auto-detect", "size>188", "bufio", "plain", "bufio-rw", "skipper", "parser"},
 		Assumptions: []string{"the call bound len(input)+16 follows from: every non-final call consumes at least one byte of input or pops one already parsed section"},
 		Levels:      map[string]string{"C03": "exploration"},
 	}
@@ -158,7 +158,10 @@ func (hostile) Generate(r *core.PRNG, tier string, idx int64) any {
 		sc.TruncEnum = true
 		sc.TruncStride = len(sc.Input)/60 + 1
 	}
-	sc.Reader = genReaderPlan(r, []string{"seekable", "bufio", "plain"})
+	sc.Reader = genReaderPlan(r, []string{"seekable", "bufio", "plain", "seekable", "bufio", "plain", "bufio-rw"})
+	if sc.Reader.Kind == "bufio-rw" {
+		sc.Reader.BufioSize = []int{256, 1024, 4096}[r.Intn(3)]
+	}
 	sc.API = []string{"packet", "data", "data", "mixed"}[r.Intn(4)]
 	sc.Skipper = r.Chance(1, 6)
 	sc.Parser = r.Chance(1, 6)
@@ -235,7 +238,7 @@ func hostileOnce(input []byte, sc *HostileScenario, log *core.Log) hostileRun {
 		hr.lastErr = err
 		hr.keys = append(hr.keys, "ERR")
 		log.Add("demux", "result", "err")
-		if sr.Pos() == pos0 && sr.Pulled == pulled0 && hr.noProg < 0 && sc.Reader.Kind != "bufio" {
+		if sr.Pos() == pos0 && sr.Pulled == pulled0 && hr.noProg < 0 && sc.Reader.Kind != "bufio" && sc.Reader.Kind != "bufio-rw" {
 			hr.noProg = i
 		}
 	}
